@@ -58,7 +58,7 @@ PROPS["C08"] = {
             "page start and a second boundary, at base 0, 0x10000, 2^63-4096 and 2^64-8192; widths 8..256 bits; both endiannesses; with and "
             "without a backing that has holes (one backing in three built with the opposite byte order); value types il::Constant and il::Expression (constant-leaf trees, evaluated by refeval). After "
             "every store/set_permissions each live handle is re-read byte by byte +-16 around the touched range plus random wide loads and "
-            "permissions. Non-trivial = a store that overlaps earlier values or crosses a page; distinct = (overlap shape, endianness, backing, value type).",
+            "permissions. Non-trivial = a store that overlaps earlier values or crosses a page; distinct = (overlap shape, endianness, backing, value type). Expression values are also zext/sext of a half-width constant when the stored value is such an extension.",
     "level_text": "Random operation histories against an executable reference model with immediate re-reads on all clones, so copy-on-write leaks, "
                   "wrong splits of overlapped values and stale back-references are seen with a short witness. Coverage is by sampling; overlap shapes reached are listed in the evidence.",
     "level_note": "trusts the byte-map model in harness/src/c08.rs; permissions are modelled page-granular, as falcon documents set_permissions ('for the page at the given address')",
@@ -144,7 +144,7 @@ PROPS["C07"] = {
             "self-loops) from corner-biased initial states with occasionally undefined scalars and an unmapped byte, both endiannesses, memory "
             "with and without backing; one in ten programs has guards that are deliberately not exhaustive. Lock-step for <=200 steps. "
             "Distinct = (how the run ended: terminal/undefined scalar/unmapped/div by zero/intrinsic/no guard/branch nowhere/lifted/step cap, "
-            "endianness, backing, cross-function branch). Intrinsics are generated with undeclared, empty and non-empty write sets; one backing memory in three has the byte order opposite to the paged memory on top of it.",
+            "endianness, backing, cross-function branch). Intrinsics are generated with undeclared, empty and non-empty write sets; one backing memory in three has the byte order opposite to the paged memory on top of it. In the non-partition mode one two-way split in three uses guards of 8-64 bits that take the values 0..3: an edge is enabled exactly when its guard evaluates to one.",
     "level_text": "Lock-step comparison with a reference interpreter transcribed from the statement, on sampled programs and states; every step "
                   "of every run is an oracle comparison of the complete observable state.",
     "level_note": "trusts harness/src/refinterp.rs and refeval.rs; programs whose guards are not mutually exclusive are not judged once two guards hold at the same time",
@@ -180,7 +180,7 @@ PROPS["C15"] = {
             "ones, set_entry/set_exit incl. invalid, append, insert, merge) on two live graphs with all structural invariants re-checked after every "
             "step (success or failure), and across every successful merge() in a history (blocks with mixed conditional/unconditional out-edges included) the set of instruction sequences executable from the entry, guards ignored, up to 6 instructions, must be unchanged; merge() on random functions (<=8 blocks, loops, self-loops, empty blocks, unreachable blocks) with executed-"
             "operation traces and final states compared before/after from 4 states; a.append(b) compared with running a then b; "
-            "BlockTranslationResult::blockify on lifted amd64 blocks. Distinct = (scenario, size buckets, number of blocks merged). One case in ten is a chain: 2-4 generated graphs, a third of them with an exit that has successors of its own (loop tail, self-loop), joined by repeated append() and - as the instruction graphs of one BlockTranslationResult - by blockify(); the executable instruction sequences of both results (guards ignored, 7 instructions deep) must equal the language of 'run g0, then g1, ...' written down over (graph, block) pairs without the code under test.",
+            "BlockTranslationResult::blockify on lifted amd64 blocks. Distinct = (scenario, size buckets, number of blocks merged). One case in ten is a chain: 2-4 generated graphs, a third of them with an exit that has successors of its own (loop tail, self-loop), joined by repeated append() and - as the instruction graphs of one BlockTranslationResult - by blockify(); the executable instruction sequences of both results (guards ignored, 7 instructions deep) must equal the language of 'run g0, then g1, ...' written down over (graph, block) pairs without the code under test. In chains one exit block in four ends in a Branch operation.",
     "level_text": "Sampled operation histories with a complete invariant check after each step, and sampled functions/states for the meaning-preservation half.",
     "level_note": "trusts harness/src/refinterp.rs for the execution comparison; append is judged only when both exits have no outgoing edges (as lifters produce)",
     "assumptions": ["a.append(b) is compared with 'run a then b' only when a's run ends at a's exit block and both exits have no successors"],
@@ -196,7 +196,7 @@ PROPS["C12"] = {
             "After each executed location every last writer must be in reaching_definitions[location]; before each instruction/guarded edge the "
             "last writer of every scalar it reads must be in use_def; every reported assignment/load must reach along a path of the independent "
             "location graph without another assignment/load of the scalar; def_use must be exactly the inverse of use_def. Distinct = (block count, "
-            "loop?, multi-scalar read seen, self-read seen, intrinsic present). The scalars an operation or guard reads are computed by the harness's own walk over the IL (indirect-branch targets that read scalars included), not by falcon's scalars_read.",
+            "loop?, multi-scalar read seen, self-read seen, intrinsic present). The scalars an operation or guard reads are computed by the harness's own walk over the IL (indirect-branch targets that read scalars included), not by falcon's scalars_read. Three-way splits include partitions whose guards read different scalars (a / !a&b / !a&!b); placeholder nops wrap assignments.",
     "level_text": "Sampled functions and executions; each executed location is an oracle comparison, the static half is complete per function.",
     "level_note": "trusts harness/src/refinterp.rs (last-writer shadow) and locgraph.rs; reported stores/nops/branches in reaching definitions are outside the statement and ignored; an execution ends at an indirect branch",
     "assumptions": ["intrinsics with declared written scalars are executed as writes of those scalars; undeclared ones as no-ops", "the function's execution ends at an indirect branch (no successor in its CFG)"],
@@ -256,7 +256,7 @@ PROPS["C17"] = {
             "mixing sp +- constants, constant + sp, sp = other register, sp loaded from memory, sp saved elsewhere, sp & -16, sp = constant, sp + sp, "
             "constant - sp, nested affine forms, balanced/unbalanced diamonds and loops, plus (one case in eight) a machine-code function made of the architecture's stack-adjusting idioms lifted by its own translator; stack_pointer_offsets must return Ok; 6 executions (<=150 steps) each: after every executed "
             "location with Value(k), sp equals its entry value plus k reduced to the pointer width. Distinct = (architecture, block count, numeric "
-            "offsets met, unknown offsets met).",
+            "offsets met, unknown offsets met). sp arithmetic includes a displacement selected by a register (sp - ite(c, 8, 16)) and writes of the low half only (sp = zext/sext(trun(sp - k))).",
     "level_text": "Sampled functions and executions per architecture; all seven descriptors are exercised on every run (the first seven cases are one per architecture).",
     "level_note": "trusts harness/src/refinterp.rs; Top/Bottom reports are never wrong by the statement",
     "assumptions": ["lifted machine code is limited to straight-line stack-adjusting idioms (lea/sub/add on esp/rsp, addiu $sp, addi r1, sub/add sp) ending in a return"],
@@ -375,7 +375,7 @@ PROPS["C19"] = {
             "value 0, two symbols at one address), PLT relocations, PT_INTERP, SONAME, user function entries; bases 0, page-aligned, unaligned and high. Link cases: x86 and "
             "MIPS (both endiannesses) main program + 1-3 shared objects with a random DT_NEEDED graph; R_386_32/GLOB_DAT/JMP_SLOT/RELATIVE, MIPS local and global GOT entries "
             "and R_MIPS_REL32, referring to symbols of the object itself, the main program and its dependencies; relocated words anywhere in the data segment's file part, its last word included. Non-trivial = at least one mapped segment / one symbol-relocated word; "
-            "distinct = (kind, architecture, object type, segment count, features). Call order is varied: half of the single-object cases ask for entries and memory before add_user_function, every link case adds user functions after its first function_entries() query and asks again (the answer must be the old one plus exactly those).",
+            "distinct = (kind, architecture, object type, segment count, features). Call order is varied: half of the single-object cases ask for entries and memory before add_user_function, every link case adds user functions after its first function_entries() query and asks again (the answer must be the old one plus exactly those). Half of the non-MIPS link cases then load one more object (with R_386_RELATIVE words) into the same linker with load_elf(): every byte of what was linked before must be unchanged and the newcomer's words rebased once.",
     "level_text": "Sampled ELF descriptions; the expected answers are known by construction, the file bytes come from a writer that shares no code with the parser (goblin) or the loader.",
     "level_note": "trusts harness/src/elfgen.rs (self-tests against its own reader); library bases are read from ElfLinker::loaded() (the placement policy is not part of the property); symbol names are unique across linked objects",
     "assumptions": [
@@ -396,7 +396,7 @@ PROPS["C20"] = {
             "register-sweep corpus; no register name both preserved and trashed (in the published sets and through is_preserved/is_trashed, which must agree with the sets); stack pointer preserved; stack slots of one machine word at "
             "consecutive offsets; argument order / return register / return-address location per psABI; stack_pointer() is the scalar written by a "
             "push/addiu $sp/stwu r1/sub sp instruction serialised in arch.endian() order; the MIPS unaligned-word idioms lwl/lwr and swl/swr at all four alignments read and write the word in arch.endian() byte order; load/store address width = word_size(); loader::Elf maps "
-            "(e_machine, EI_DATA) to the same descriptor. Distinct = (architecture, role, register) facts confirmed. Each architecture is swept three times: in a process that lifted nothing else, after every other architecture lifted something (table order) and likewise in reverse order; inside each case the sweep is repeated behind one more round of the others and must observe the same scalars (state cached across translators shows as a difference).",
+            "(e_machine, EI_DATA) to the same descriptor. Distinct = (architecture, role, register) facts confirmed. Each architecture is swept three times: in a process that lifted nothing else, after every other architecture lifted something (table order) and likewise in reverse order; inside each case the sweep is repeated behind one more round of the others and must observe the same scalars (state cached across translators shows as a difference). The loader mapping is also asked for EM_X86_64 in an ELFCLASS32 file (x32): the machine field names the instruction set.",
     "level_text": "A finite configuration space, enumerated completely (exhaustive: true); the observed side depends on the corpus, which sweeps every register number of every register class the conventions mention.",
     "level_note": "trusts the psABI table in harness/src/c20.rs (argument registers, return register, return-address location for cdecl, SysV amd64, o32, PPC SVR4, AAPCS64) and harness/src/elfgen.rs for the loader probe",
     "assumptions": ["psABI facts transcribed by hand into harness/src/c20.rs"],
